@@ -139,6 +139,7 @@ def corner_schemas():
         C("compA", [T("number", "uint32"), T("arr", "uint8", length=3), E("en", "uint16", [("X", 7)]), S("st", "uint16", [("c12", 12), ("c0", 0), ("c15", 15)]), R("again", "u32opt")]),
         T("zero0", "uint8", length=0),
         C("zcomp", [T("kind", "uint8"), T("mark", "char", length=0), T("name", "char", length=4), R("tail", "zero0"), T("crc", "uint32")]),
+        T("kc", "uint8", presence="constant", const="9"),
     ]
     lvl_fields = [F("builtin", "uint32"), F("number", "u32req"), F("enumeration", "numbers"), F("set", "options"), F("array", "str16"), F("composite", "compA")]
     out.append(schema("conv", "littleEndian", header(), common, [
@@ -154,6 +155,12 @@ def corner_schemas():
         M("m5", [F("a", "uint8"), F("c", "compA", offset="+3")], [], []),
         M("m6", [F("a", "uint8"), F("s", "str16", offset="+5"), F("z", "zero0", offset="+2")], [], []),
         M("m7", [F("k", "uint16")], [G("g", "groupSizeEncoding", [F("a", "uint8"), F("c", "compA", offset="+2")]), G("h", "groupSizeEncoding", [F("s", "str16", offset="+7")])], []),
+        # levels whose *declared* fields end with a constant: the last encoded field is not the last declared one
+        # (message without anything behind the block; flat group; nested group; reserved space behind the fields)
+        M("m8", [F("a", "uint16"), F("k", "kc")], [], []),
+        M("m9", [F("a", "uint8"), F("k1", "kc"), F("b", "u32opt"), F("k2", "kc")],
+          [G("flat", "groupSizeEncoding", [F("x", "uint16"), F("k", "kc")], [], [], block_length="+3"),
+           G("nest", "groupSizeEncoding", [F("y", "numbers"), F("k", "kc")], [], [D("d", "varDataEncoding")])], [], block_length="+2"),
     ]))
     # 2. big-endian; reordered header with a gap, ref-typed uint64 blockLength, counters;
     #    dimensions uint8/uint32 (with offset) and uint64/uint64; data lengths uint8 and uint64
